@@ -122,6 +122,7 @@ def check(pid, tier):
     # ---- run
     runnable = [j for j in jobs if built[j.bin_path()][0] is not None]
     results = []
+    evals_total = [0]
     with cf.ThreadPoolExecutor(max_workers=NCPU) as ex:
         futs = []
         for j in runnable:
@@ -150,7 +151,10 @@ def check(pid, tier):
                     s = json.loads(parts[1])
                 except Exception:
                     continue
+                evals_total[0] += int(s.get("evaluations", s.get("transitions", s.get("states", 0))) or 0)
                 for k, v in s.items():
+                    if k == "evaluations":
+                        continue
                     if k == "samples":
                         samples.extend(v)
                     elif k == "notes":
@@ -203,7 +207,7 @@ def check(pid, tier):
     if level == "model_checking":
         cov["traces_validated_against_impl"] = cov.get("traces_validated_against_impl", cov.get("transitions", 0))
         cov["states"] = max(cov["states"], 0)
-    cov["evaluations"] = int(cov.get("evaluations", cov.get("transitions", 0) or cov.get("states", 0)))
+    cov["evaluations"] = int(evals_total[0] + cov.get("compile_probes", 0))   # per job: its own "evaluations" if it reports one, else its transitions; plus compile probes
     cov["distinct_nontrivial"] = int(cov.get("distinct_nontrivial", 0))
     cov["rule"] = spec["rule"]
     cov["samples"] = samples[:8] if samples else []
